@@ -10,6 +10,7 @@ finite / NaN / +-inf / huge / negative / zero / ties; scalar options at and beyo
 cells than Voronoi points; series shorter than a period; cell numbers outside the grid.
 """
 import math
+import re
 
 I32MIN, I32MAX = -2 ** 31, 2 ** 31 - 1
 I64MIN, I64MAX = -2 ** 63, 2 ** 63 - 1
@@ -66,8 +67,35 @@ def lengths(rng, nrand, nmax):
     return list(range(0, 9)) + [rng.randint(9, nmax) for _ in range(nrand)]
 
 
+def coarse(cls, keep=(0,)):
+    """the predicate of a finding's signature: the components `keep` of the fine class, sizes bucketed"""
+    comps = cls.split("/")
+    out = []
+    for i in keep:
+        if i >= len(comps):
+            continue
+        c = comps[i]
+        c = re.sub(r"^(len|n|m|k|p|pts|cells)(\d+)$", lambda m: m.group(1) + ("0" if m.group(2) == "0" else
+                                                                                "1" if m.group(2) == "1" else "2+"), c)
+        c = re.sub(r"^order(\d+)$", lambda m: "order0" if m.group(1) == "0" else
+                   "order11+" if int(m.group(1)) > 10 else "order1-10", c)
+        out.append(c)
+    return "/".join(out)
+
+
+# which components of the fine class name the input class that matters for each entry point
+PRED_KEEP = {
+    "coord2cell": (0, 2), "slice": (0, 2), "cell2coord": (0, 2), "cell2rowcol": (0, 2), "neighbours": (1,),
+    "accumulate": (1, 2), "slope": (1,), "delineate_boundary": (1,), "compute_flowpathlengths": (1,),
+    "intersect": (1, 2), "voronoi": (1, 2), "delineate_area": (1, 3), "delineate_river": (1, 2),
+    "upstream": (2,), "downstream": (2,), "points_inside_polygon": (0, 1), "crps": (0, 1), "dscore": (0, 1),
+    "pareto_front": (0, 1), "armodel_sim": (0, 1), "armodel_residual": (0, 1), "cs.olsleverage": (0, 1),
+    "var2h": (0, 1), "islinear": (0, 2), "eckhardt": (0,), "aggregate": (0, 1), "flathomogen": (0, 1),
+}
+
+
 def P(entry, cls, **a):
-    return {"kind": "api", "entry": entry, "cls": cls, "a": a}
+    return {"kind": "api", "entry": entry, "cls": cls, "pred": coarse(cls, PRED_KEEP.get(entry, (0,))), "a": a}
 
 
 # ---------------------------------------------------------------------------------------------
